@@ -124,6 +124,11 @@ def block_constraints(zname, b, n):
     I = b['idx']
     if fam == 'box':
         z = _sel(zname, I, n)
+        if b.get('form') == 'scalar':
+            out = []
+            for j, i in enumerate(I):
+                out += [['>=', ['i', ['v', zname], i], ['c', float(b['lo'][j])]], ['<=', ['i', ['v', zname], i], ['c', float(b['hi'][j])]]]
+            return out
         return [['>=', z, ['c', list(b['lo'])]], ['<=', z, ['c', list(b['hi'])]]]
     if fam == 'absbox':
         z = _sel(zname, I, n)
@@ -258,7 +263,7 @@ def box_of(blocks, n):
     return lo, hi
 
 
-def worst_case_expectation_moments(P, boxes, a, moments):
+def worst_case_expectation_moments(P, boxes, a, moments, vconst=None):
     """sup over distributions of E[a.z] with scenario probabilities p in P, z | s supported on the box boxes[s] = (lo, hi),
     and for each (event, mlo, mhi) in `moments`: E[z | s in event] in [mlo, mhi].  Direct LP in (p, nu_s = p_s E[z|s])."""
     from scipy.optimize import linprog
@@ -280,6 +285,8 @@ def worst_case_expectation_moments(P, boxes, a, moments):
     for s in range(S):
         for i in range(n):
             c[nv(s, i)] = -a[i]
+        if vconst is not None:
+            c[pv(s)] = -float(vconst[s])        # plus a scenario-dependent constant v_s (event-wise decisions)
     A, b, Aeq, beq = [], [], [], []
     bounds = [(0, None)] * S + [(None, None)] * (S * n) + [(0, None)] * nt
     r = np.zeros(N); r[:S] = 1; Aeq.append(r); beq.append(1.0)
